@@ -190,21 +190,59 @@ def check(ctx):
             failures.append({"case": json.dumps(c), "check": "no_panic", "detail": {"impl": a[:300]}, "guards": {"site:" + str(PL.canon_panic(a))},
                              "model_agrees": agree, "replay_how": "echo '<case json>' | /verif/harness/target/debug/oq3-run include"})
             continue
-        # resolution order
-        tops = re.findall(r'^include "([^"]+)";', c["main"], flags=re.M)
-        want = [canon_path(expected_resolution(c, p), c) for p in tops if p != "stdgates.inc"]
+        # resolution order, at every level of the include tree: the sources parsed for a file are, in order, the
+        # specified resolutions of that file's own top-level non-stdgates includes
         inc = a.split(";inc=[", 1)[1].split("];semtree=", 1)[0] if ";inc=[" in a else ""
-        got, depth, tok = [], 0, ""
-        for m in re.finditer(r"\(([^()\[\] ]+) ast=|\[|\]", inc):
-            if m.group(0) == "[":
-                depth += 1
-            elif m.group(0) == "]":
-                depth -= 1
-            elif depth == 0:
-                got.append(canon_path(m.group(1), c))
-        if got != want:
-            failures.append({"case": json.dumps(c), "check": "resolve_order", "detail": {"expected": want, "got": got, "search": c["search"], "env": c["env"]},
-                             "guards": set(), "model_agrees": agree, "replay_how": "oq3-run include"})
+
+        def parse_inc(txt):
+            pos = 0
+
+            def nodes():
+                nonlocal pos
+                out = []
+                while pos < len(txt):
+                    if txt[pos] == " ":
+                        pos += 1
+                    elif txt[pos] == "(":
+                        j = txt.index(" ast=", pos)
+                        path = txt[pos + 1:j]
+                        has_ast = txt[j + 5] == "1"
+                        k = txt.index("[", j)
+                        pos = k + 1
+                        kids = nodes()
+                        assert txt[pos] == "]"
+                        pos += 1
+                        assert txt[pos] == ")"
+                        pos += 1
+                        out.append((path, kids if has_ast else None))
+                    else:
+                        break
+                return out
+            return nodes()
+
+        def text_of(path):
+            root = c["root"]
+            rel = path[len("@ROOT@/"):] if path.startswith("@ROOT@/") else (path[len(root) + 1:] if path.startswith(root + "/") else path)
+            return c["files"].get(rel)
+
+        def check_level(text, kids, where):
+            tops = re.findall(r'^include "([^"]+)";', text, flags=re.M)
+            want = [canon_path(expected_resolution(c, p), c) for p in tops if p != "stdgates.inc"]
+            got = [canon_path(p, c) for p, _ in kids]
+            if got != want:
+                failures.append({"case": json.dumps(c), "check": "resolve_order",
+                                 "detail": {"in_file": where, "expected": want, "got": got, "search": c["search"], "env": c["env"]},
+                                 "guards": set(), "model_agrees": agree, "replay_how": "oq3-run include"})
+                return
+            for p, sub in kids:
+                t = text_of(canon_path(p, c))
+                # a file without a tree (unreadable, or lexical errors: `LEX n` in the scan) has no includes of its own
+                if t is not None and sub is not None and not scan.get(t, "").startswith("LEX"):
+                    check_level(t, sub, canon_path(p, c))
+        try:
+            check_level(c["main"], parse_inc(inc), "main")
+        except (ValueError, AssertionError, IndexError):
+            ctx.notes.append("could not parse inc= field: " + inc[:120])
         # textual inclusion equivalence
         if i in spmap and a.startswith("asg="):
             stext, sline = spmap[i]
